@@ -833,3 +833,39 @@ def r11(cx):
                          'not an lvalue) sets a=9 and prints 9 instead of reporting "assignment to a non-variable"' % '/'.join(names),
                          loc='%s:%s' % (h['file'], tail.get('line') or h['line']))
     cx.floor(n, 4, 'operator arms of eval::eval')
+
+
+# ---------------------------------------------------------------------------------------
+# added after seed wave 3 (C03-s6: "nothing to write back" shortcut in compound assignment)
+@RS.rule('C03.R12', 'K-PASS', 'every assignment operator assigns: once an operator has demanded a variable operand (=, op=, ++, --), every '
+         'path that ends without an error writes the variable (x+=0 on an unset x defines it; y|=0 on y=010 normalises it; a read-only '
+         'variable is refused) - no "value unchanged" shortcut')
+def r12(cx):
+    F = cx.F
+    RV = EVAL + 'require_variable'
+    ASSIGN = EVAL + 'assign'
+    n = 0
+    for body in F.bodies.values():
+        if not body.fn.startswith(EVAL) or '::tests' in body.fn:
+            continue
+        reqs = Q.find_calls(body, [RV])
+        if not reqs:
+            continue
+        cx.fn(body.fn)
+        writes = {blk for blk, t in Q.find_calls(body, [ASSIGN])}
+        errs = {blk for blk, t in body.calls() if Q.callee_is(t, [re.compile(r'FromResidual<.*>>::from_residual$')])}
+        errs |= {blk for blk, j, st in body.stmts() if st['k'] == 'assign' and st['rv']['k'] == 'agg'
+                 and str(st['rv'].get('adt', '')).endswith('result::Result') and st['rv'].get('variant') in (1, 'Err')}
+        for blk, t in reqs:
+            n += 1
+            p = body.shortest_path(blk, set(body.return_blocks()), removed=writes | errs)
+            cx.site('%s: require_variable at %s: every error-free path assigns: %s' % (body.fn.split('::')[-1], body.loc(t), p is None))
+            if p is not None:
+                cx.violation(body.fn, 'assignment-operator-may-not-assign', 'an operator that demands a variable operand can finish without an '
+                             'error and without assigning it: `unset x; echo $((x+=0)) ${x-unset}` must define x, `y=010; : $((y|=0))` must '
+                             'store 8, and `readonly z=5; $((z*=1))` must fail - a shortcut that skips the write when the value looks '
+                             'unchanged breaks all three', loc=body.loc(t), path=Q.render_path(body, p))
+    cx.floor(n, 5, 'operators that demand a variable operand (=, op=, prefix and postfix ++/--)')
+
+
+RS.explanation += ' Every operator that demands a variable operand assigns it on every error-free path (R12).'
